@@ -1,31 +1,41 @@
 import Fcgi.Proofs.E2EMulti
 /-!
-# C07 — end to end: what a whole connection does for one well-formed request
+# C07 — end to end: what a whole connection does for well-formed requests
 
-The composition of C01 (request parser, any chunking), C02 (stream parser simulation), C09
-(`poll_input`), C10 (`StreamWriter`) and the run-loop phase specs of C07 into ONE statement about the
-executor `runTask` on the connection task `pollConn`:
+The composition of C01/C06 (request parser, any chunking), C02/C03 (stream parser against its
+functional reference), C09 (`poll_input`), C10 (`StreamWriter`) and the run-loop phase specs of C07
+into statements about the executor `runTask` on the connection task `pollConn`:
 
-a client sends a well-formed preamble (any idle / Params-phase noise, replies owed as in C01) and a
-Stdin stream (any noise that owes no reply), all of it sitting in the transport; the transport
-splits reads and writes arbitrarily and answers `Pending` whenever it likes (but never with an
-error); the handler is the canonical one (`readAll`, open Stdout, `writeAll data`, drop the writer,
-return `st`).  Then the task
+a client sends a well-formed preamble (any idle / Params-phase noise, replies owed as in C01) and
+the input streams of the request's role (Responder: Stdin; Authorizer: none; Filter: Stdin, then
+Data), with ANY noise inside the streams (management `GetValues` bodies within the buffer bound,
+`NoiseFits`), all of it sitting in the transport; the transport splits reads and writes arbitrarily
+and answers `Pending` whenever it likes (but never with an error); the handler is the canonical one
+of the role (`readAll` per input stream — with `set_stream(Data)` in between for a Filter —, open
+Stdout, `writeAll data`, drop the writer, return `st`).  Then the task
 
 * starts exactly one handler, for exactly the request sent (`HS(` event of `p.request`);
-* the handler's `readAll` returns exactly the Stdin content;
-* the write log is, in this order and nothing else: the replies owed for the preamble, the Stdout
-  records framing `data` (`≤ 65535` bytes each, padded to 8), `[Stdout∅][Stderr∅][EndRequest(id, st)]`;
+* the handler's `readAll`s return exactly the contents of the input streams;
+* the write log is, in this order and nothing else: the replies owed for the preamble, `O₁`, the
+  Stdout records framing `data` (`≤ 65535` bytes each, padded to 8), `O₂`,
+  `[Stdout∅][Stderr∅][EndRequest(id, st)]`, where `O₁ ++ O₂` = the replies owed for the noise inside
+  the input streams (what the `parse` call reporting the end of the last stream generated is only
+  flushed by `close`, i.e. after the handler's output: `O₂`);
 * without KEEP_CONN the task returns (`RET`, phase `finished`); with KEEP_CONN it goes back to
-  `parse_request`, swallows the stream's terminating record, and returns at end-of-file (`RET`)
-  resp. parks on an empty buffer if the peer just stays silent (`STALL`, phase `parseReq … .reading`);
+  `parse_request`, swallows the last stream's terminating record (which the stream parser never
+  consumed), and returns at end-of-file (`RET`) resp. parks on an empty buffer if the peer just
+  stays silent (`STALL`, phase `parseReq … .reading`);
 * it never panics (`RET`/`STALL` are the only outcomes), within `|rd| + |wr| + 1` polls.
 
-`single_request_e2e_full` is the general statement (arbitrary stream noise);
-`single_request_e2e_partial` is what is proved — see its doc comment for the exact added hypotheses;
-`single_request_e2e_ideal` is its instance for the ideal transport (one poll);
-`k_requests_e2e_partial` serves a list of KEEP_CONN requests sent by a closed-loop client
-(`E2E.closedLoop`: the next request is sent when the task has parked).
+`single_request_e2e_full` is the general Responder statement, `single_request_e2e_full_holds` its
+proof; `single_request_e2e` the same with the final state spelled out (`OutcomeN`);
+`single_request_e2e_authorizer`, `single_request_e2e_filter` the other two roles (`OutcomeG`);
+`single_request_e2e_partial` the instance where the stream noise owes no reply (plain log);
+`single_request_e2e_ideal` the instance for the ideal transport (one poll);
+`run_cfg` the role-generic core in terms of `E2E.Cfg`;
+`k_requests_e2e` serves a list of KEEP_CONN requests OF ANY ROLES sent by a closed-loop client
+(`E2E.closedLoop`: the next request is sent when the task has parked), `k_requests_e2e_partial` its
+instance without reply-owing stream noise.
 
 The stages of the proof (`Fcgi/Proofs/E2E*.lean`), each a theorem about one poll:
 * stage 1, `parse_request`: `E2E.parse_loop` (any poll inside `parse_request`: the request parser is
@@ -33,27 +43,42 @@ The stages of the proof (`Fcgi/Proofs/E2E*.lean`), each a theorem about one poll
   produces — and exactly that run's output is written), `E2E.handler_start` (the handler is started
   on `Request::new` of exactly the spec request, with exactly the wire after the preamble in
   buffer ++ transport, the log being exactly the owed preamble replies);
-* stage 2, `readAll`: `E2E.pollInput_sim` / `E2E.readAll_run` (C02's simulation `parse_sim` under the
-  poll loop of C09: the bytes delivered are the next piece of the content, `0` exactly at the end mark);
+* stage 2, `readAll`: `E2E.parse_rinv` (one `parse` call against the reference `refWire` on the
+  stream's wire), `E2E.stream_fits` (the stream analogue of C06: the buffer never fills up with an
+  incomplete `GetValues` pair), `E2E.pollInput_sim` / `E2E.readAll_run` (the poll loop of C09: the
+  bytes delivered are the next piece of the content, `0` exactly at the end mark),
+  `E2E.switch_stream` / `E2E.read_phaseF` (Filter: `set_stream(Data)` at the end of Stdin);
 * stage 3, `writeAll` / `close`: `E2E.writeAll_run` (C10's `pollWrite_spec`: one record per
   `min 65535` bytes, whatever the partial writes), `E2E.close_start_eq`, `E2E.close_core` (the
-  epilogue, then `ConnectionReset` or reuse), `E2E.idle_poll` (the reused connection swallows the
-  terminating record and parks / returns);
+  queued replies, the epilogue, then `ConnectionReset` or reuse), `E2E.idle_poll` (the reused
+  connection swallows the terminating record and parks / returns);
 * glue: `E2E.stage_poll` (one poll from any stage), `E2E.run_from_stage` (the executor: every
   non-final poll consumes a scripted answer), `E2E.chain_run` (several requests).
 -/
 namespace Fcgi.C07E
 open Fcgi Fcgi.Req Fcgi.Str Fcgi.Async Fcgi.Run Fcgi.Spec Fcgi.E2E
 
-/-- The canonical handler: read all of Stdin, open Stdout, write `data`, drop the writer, return `st`. -/
+/-- The canonical Responder handler: read all of Stdin, open Stdout, write `data`, drop the writer,
+return `st`. -/
 abbrev canonical (data : Bytes) (st : ExitStatus) : List HOp :=
   [.readAll, .open_ 6, .writeAll 0 data, .dropW 0, .ret st]
 
+/-- The canonical Authorizer handler (no input stream to read). -/
+abbrev canonicalA (data : Bytes) (st : ExitStatus) : List HOp :=
+  [.open_ 6, .writeAll 0 data, .dropW 0, .ret st]
+
+/-- The canonical Filter handler: read all of Stdin, `set_stream(Data)`, read all of Data, then as above. -/
+abbrev canonicalF (data : Bytes) (st : ExitStatus) : List HOp :=
+  [.readAll, .setStream 8, .readAll, .open_ 6, .writeAll 0 data, .dropW 0, .ret st]
+
 /-- The connection task as `Token::run` starts it: fresh request parser, the scripted transport, no
-closed-loop peer, one handler script. -/
+closed-loop peer, the handler scripts of the requests to come. -/
+def connS (b mc : Nat) (t : Transport) (scripts : List (List HOp × Bool)) : Conn :=
+  { phase := .parseReq (Req.Parser.new b mc) .start, env := { tr := t, segs := [] }, scripts := scripts }
+
+/-- … with the one script of a Responder request -/
 def conn0 (b mc : Nat) (t : Transport) (data : Bytes) (st : ExitStatus) : Conn :=
-  { phase := .parseReq (Req.Parser.new b mc) .start, env := { tr := t, segs := [] },
-    scripts := [(canonical data st, true)] }
+  connS b mc t [(canonical data st, true)]
 
 /-- `[Stdout∅][Stderr∅][EndRequest(id, st)]` -/
 def epilogue (id : Nat) (st : ExitStatus) : Bytes :=
@@ -61,12 +86,12 @@ def epilogue (id : Nat) (st : ExitStatus) : Bytes :=
     st.toEndRequest.toRecord id
 
 /-- Everything the connection writes for the request, in order; `O₁` / `O₂` = the replies owed for
-the noise inside the Stdin stream that get written before / after the handler's output. -/
+the noise inside the input streams that get written before / after the handler's output. -/
 def expectedLogN (p : Preamble) (recs : List Rec) (mc : Nat) (data : Bytes) (st : ExitStatus)
     (O₁ O₂ : Bytes) : Bytes :=
   owedPreamble p mc recs ++ O₁ ++ streamRecords 6 p.id data ++ O₂ ++ epilogue p.id st
 
-/-- … when the stream's noise owes no reply -/
+/-- … when the streams' noise owes no reply (or there is no input stream) -/
 def expectedLog (p : Preamble) (recs : List Rec) (mc : Nat) (data : Bytes) (st : ExitStatus) : Bytes :=
   owedPreamble p mc recs ++ streamRecords 6 p.id data ++ epilogue p.id st
 
@@ -80,7 +105,23 @@ abbrev startEvent (rq : Request) : String := hsEvent rq
 /-- The trace event of a `readAll` that returned `bytes`. -/
 abbrev readEvent (bytes : Bytes) : String := rEvent bytes
 
-/-- What the run ends in (`log` = everything written after `L0`). -/
+/-- What the run ends in, for any role (`log` = everything written after `L0`, `reads` = what the
+handler's `readAll`s returned). -/
+structure OutcomeG (p : Preamble) (reads : List Bytes) (b mc : Nat) (L0 log : Bytes) (t : Transport)
+    (c' : Conn) (fin : String) : Prop where
+  /-- (a) exactly one handler invocation, for the request sent -/
+  one_handler : hsCount c'.env.tr.events = 1 ∧ startEvent p.request ∈ c'.env.tr.events
+  /-- (b) its `readAll`s returned exactly the contents of the input streams -/
+  read_content : ∀ d ∈ reads, readEvent d ∈ c'.env.tr.events
+  /-- (c) the write log -/
+  log : c'.env.tr.wlog = L0 ++ log
+  /-- (d) returned, or parked waiting for the next request -/
+  final : (p.flags.toNat % 2 = 0 ∧ fin = "RET" ∧ c'.phase = .finished) ∨
+          (p.flags.toNat % 2 = 1 ∧ t.endMode = .eof ∧ fin = "RET" ∧ c'.phase = .finished) ∨
+          (p.flags.toNat % 2 = 1 ∧ t.endMode = .pend ∧ fin = "STALL" ∧
+            c'.phase = .parseReq ⟨alignedBufsize b, [], .header, mc⟩ .reading ∧ c'.env.tr.input = [])
+
+/-- What the run ends in for a Responder request with Stdin content `content`. -/
 structure OutcomeN (p : Preamble) (content : Bytes) (b mc : Nat) (L0 log : Bytes) (t : Transport)
     (c' : Conn) (fin : String) : Prop where
   /-- (a) exactly one handler invocation, for the request sent -/
@@ -95,12 +136,23 @@ structure OutcomeN (p : Preamble) (content : Bytes) (b mc : Nat) (L0 log : Bytes
           (p.flags.toNat % 2 = 1 ∧ t.endMode = .pend ∧ fin = "STALL" ∧
             c'.phase = .parseReq ⟨alignedBufsize b, [], .header, mc⟩ .reading ∧ c'.env.tr.input = [])
 
+theorem OutcomeG.responder {p content b mc L0 log t c' fin}
+    (h : OutcomeG p [content] b mc L0 log t c' fin) : OutcomeN p content b mc L0 log t c' fin :=
+  ⟨h.one_handler, h.read_content content (by simp), h.log, h.final⟩
+
 /-- What the run ends in when the stream's noise owes no reply. -/
 abbrev Outcome (p : Preamble) (recs : List Rec) (content : Bytes) (b mc : Nat) (data : Bytes)
     (st : ExitStatus) (L0 : Bytes) (t : Transport) (c' : Conn) (fin : String) : Prop :=
   OutcomeN p content b mc L0 (expectedLog p recs mc data st) t c' fin
 
 /-- (e) in particular: no panic, no fuel exhaustion -/
+theorem OutcomeG.no_panic {p reads b mc L0 log t c' fin}
+    (h : OutcomeG p reads b mc L0 log t c' fin) : fin = "RET" ∨ fin = "STALL" := by
+  rcases h.final with ⟨_, h, _⟩ | ⟨_, _, h, _⟩ | ⟨_, _, h, _⟩
+  · exact Or.inl h
+  · exact Or.inl h
+  · exact Or.inr h
+
 theorem OutcomeN.no_panic {p content b mc L0 log t c' fin}
     (h : OutcomeN p content b mc L0 log t c' fin) : fin = "RET" ∨ fin = "STALL" := by
   rcases h.final with ⟨_, h, _⟩ | ⟨_, _, h, _⟩ | ⟨_, _, h, _⟩
@@ -135,9 +187,80 @@ theorem epilogue_eq (id : Nat) (st : ExitStatus) :
   rw [(C17.epilogue_spec id st _).1]
   simp [epilogue]
 
-theorem owedStream_term (id mc : Nat) (pad : Bytes) (res : UInt8) :
-    owedStream id 5 mc [{ rtype := 5, id := id, content := [], pad := pad, reserved := res }] = [] := by
-  simp [owedStream]
+theorem owedStream_term (id s mc : Nat) (ty : UInt8) (hty : ty.toNat = s) (pad : Bytes) (res : UInt8) :
+    owedStream id s mc [{ rtype := ty, id := id, content := [], pad := pad, reserved := res }] = [] := by
+  simp [owedStream, hty]
+
+/-! ## The configurations of the three roles -/
+
+/-- an empty record (the terminator of a stream) -/
+def trec (ty : UInt8) (id : Nat) (pad : Bytes) (res : UInt8) : Rec :=
+  { rtype := ty, id := id, content := [], pad := pad, reserved := res }
+
+/-- a Responder request: Stdin = `body` then an empty record -/
+def cfgR (p : Preamble) (recs : List Rec) (content : Bytes) (body : List Rec) (pad : Bytes) (res : UInt8)
+    (b mc : Nat) (data : Bytes) (st : ExitStatus) (L0 : Bytes) (h : Nat) (more : List (List HOp × Bool)) :
+    E2E.Cfg :=
+  ⟨p, recs, content, body, pad, res, [], [], [], 0, b, mc, data, st, L0, h, more,
+    serAll body ++ (trec 5 p.id pad res).ser, [], (trec 5 p.id pad res).ser, owedStream p.id 5 mc body,
+    [rEvent content], script data st⟩
+
+/-- an Authorizer request: nothing after the preamble -/
+def cfgA (p : Preamble) (recs : List Rec) (b mc : Nat) (data : Bytes) (st : ExitStatus) (L0 : Bytes) (h : Nat)
+    (more : List (List HOp × Bool)) : E2E.Cfg :=
+  ⟨p, recs, [], [], [], 0, [], [], [], 0, b, mc, data, st, L0, h, more, [], [], [], [], [], oscript data st⟩
+
+/-- a Filter request: Stdin = `body` then an empty record, Data = `body2` then an empty record -/
+def cfgF (p : Preamble) (recs : List Rec) (content : Bytes) (body : List Rec) (pad : Bytes) (res : UInt8)
+    (content2 : Bytes) (body2 : List Rec) (pad2 : Bytes) (res2 : UInt8)
+    (b mc : Nat) (data : Bytes) (st : ExitStatus) (L0 : Bytes) (h : Nat) (more : List (List HOp × Bool)) :
+    E2E.Cfg :=
+  ⟨p, recs, content, body, pad, res, content2, body2, pad2, res2, b, mc, data, st, L0, h, more,
+    serAll body ++ ((trec 5 p.id pad res).ser ++ (serAll body2 ++ (trec 8 p.id pad2 res2).ser)),
+    serAll body2 ++ (trec 8 p.id pad2 res2).ser, (trec 8 p.id pad2 res2).ser,
+    owedStream p.id 5 mc body ++ owedStream p.id 8 mc body2, [rEvent content, rEvent content2],
+    fscript data st⟩
+
+theorem L3_eq (g : E2E.Cfg) (O1 O2 : Bytes) :
+    g.L3 O1 O2 = g.L0 ++ expectedLogN g.p g.recs g.mc g.data g.st O1 O2 := by
+  show (((g.L0 ++ owedPreamble g.p g.mc g.recs) ++ O1) ++ streamRecords 6 g.p.id g.data) ++ O2 ++
+    makeRequestEpilogue g.p.id g.st [RT.stdout, RT.stderr] = _
+  rw [epilogue_eq]
+  simp only [expectedLogN, List.append_assoc]
+
+/-- **One request of any role**, in terms of its configuration: `runTask` on the connection whose
+transport holds exactly the request's wire. -/
+theorem run_cfg {g : E2E.Cfg} (ok : g.OK) {t : Transport} {fuel : Nat} (hW : t.input = g.W) (hL : g.L0 = t.wlog)
+    (hh : g.hs0 = 0) (hben : Ben t) (hev : hsCount t.events = 0) (hfuel : t.rd.length + t.wr.length + 1 ≤ fuel)
+    (hsize : 4 * t.input.length + 17 ≤ 100000) :
+    ∃ c' fin O₁ O₂, runTask fuel (connS g.b g.mc t ((g.hscript, true) :: g.more)) 0 none = (c', fin) ∧
+      O₁ ++ O₂ = g.Ot ∧ c'.scripts = g.more ∧ (∀ s ∈ g.revs, s ∈ c'.env.tr.events) ∧
+      OutcomeG g.p [] g.b g.mc t.wlog (expectedLogN g.p g.recs g.mc g.data g.st O₁ O₂) t c' fin := by
+  have hstage : Stage g (connS g.b g.mc t ((g.hscript, true) :: g.more)) :=
+    .start (raw := []) rfl (by show [] ++ t.input = g.W; rw [hW]; rfl) (Nat.zero_le _) hL.symm hben rfl rfl rfl
+      (hev.trans hh.symm)
+  obtain ⟨c', ⟨hem, _, _, _⟩, O1, O2, hO, hres⟩ :=
+    run_from_stage ok (ans t) (connS g.b g.mc t ((g.hscript, true) :: g.more)) 0 fuel hstage rfl
+      (Nat.le_refl _) (by unfold ans; omega) hsize
+  have hlog : g.L3 O1 O2 = t.wlog ++ expectedLogN g.p g.recs g.mc g.data g.st O1 O2 := by rw [L3_eq, hL]
+  have hem' : c'.env.tr.endMode = t.endMode := hem
+  rcases hres with ⟨hrun, hfin⟩ | ⟨hrun, hpk⟩
+  · have hev1 : hsCount c'.env.tr.events = 1 ∧ startEvent g.p.request ∈ c'.env.tr.events := by
+      have := hfin.ev; rw [Ev1, hh] at this; exact this
+    refine ⟨c', "RET", O1, O2, hrun, hO, hfin.sc, hfin.re,
+      ⟨hev1, fun d hd => (by cases hd), hfin.log.trans hlog, ?_⟩⟩
+    rcases hfin.why with hk | ⟨hk, he⟩
+    · exact Or.inl ⟨hk, rfl, hfin.ph⟩
+    · exact Or.inr (Or.inl ⟨hk, hem'.symm.trans he, rfl, hfin.ph⟩)
+  · have hev1 : hsCount c'.env.tr.events = 1 ∧ startEvent g.p.request ∈ c'.env.tr.events := by
+      have := hpk.ev; rw [Ev1, hh] at this; exact this
+    exact ⟨c', "STALL", O1, O2, hrun, hO, hpk.sc, hpk.re,
+      ⟨hev1, fun d hd => (by cases hd), hpk.log.trans hlog,
+      Or.inr (Or.inr ⟨hpk.keep, hem'.symm.trans hpk.em, rfl, hpk.ph, hpk.inp⟩)⟩⟩
+
+theorem OutcomeG.with_reads {p b mc L0 log t c' fin} (h : OutcomeG p [] b mc L0 log t c' fin)
+    (reads : List Bytes) (hr : ∀ d ∈ reads, readEvent d ∈ c'.env.tr.events) :
+    OutcomeG p reads b mc L0 log t c' fin := ⟨h.one_handler, hr, h.log, h.final⟩
 
 /-- **C07 end to end, one request** — the general form with the final state spelled out.
 
@@ -165,34 +288,17 @@ theorem single_request_e2e {p : Preamble} {recs : List Rec} {content : Bytes} {s
       O₁ ++ O₂ = owedStream p.id 5 mc srecs ∧
       OutcomeN p content b mc t.wlog (expectedLogN p recs mc data st O₁ O₂) t c' fin := by
   obtain ⟨body, pad, res, hpad, hbody, hsrecs⟩ := StreamRecs.split hs
-  let g : E2E.Cfg := ⟨p, recs, content, body, pad, res, b, mc, data, st, t.wlog, 0, []⟩
   have hsb : NoiseFits (alignedBufsize b) body := fun r hr => hsn r (by rw [hsrecs]; simp [hr])
-  have ok : g.OK := ⟨hwf, hrole, hpairs, hnoise, hbody, hsb, hpad, hhf⟩
-  have hW : g.W = t.input := by
+  have ok : (cfgR p recs content body pad res b mc data st t.wlog 0 []).OK :=
+    ⟨hwf, hpairs, hnoise, .responder hrole hbody hsb hpad rfl rfl rfl rfl rfl rfl hhf⟩
+  have hW : t.input = (cfgR p recs content body pad res b mc data st t.wlog 0 []).W := by
     rw [hin, hsrecs, C02.serAll_append, C02.serAll_single]
     rfl
-  have hOt : owedStream p.id 5 mc srecs = g.Ot := by
-    rw [hsrecs, owedStream_append]
-    have := owedStream_term p.id mc pad res
-    show owedStream p.id 5 mc body ++ owedStream p.id 5 mc [_] = owedStream p.id 5 mc body
-    rw [show (UInt8.ofNat 5) = 5 from rfl, this, List.append_nil]
-  have hstage : Stage g (conn0 b mc t data st) :=
-    .start (raw := []) rfl (by show [] ++ t.input = g.W; rw [hW]; rfl) (Nat.zero_le _) rfl hben rfl rfl rfl hev
-  obtain ⟨c', ⟨hem, _, _, _⟩, O1, O2, hO, hres⟩ := run_from_stage ok (ans t) (conn0 b mc t data st) 0 fuel hstage rfl
-    (Nat.le_refl _) (by unfold ans; omega) hsize
-  have hlog : g.L3 O1 O2 = t.wlog ++ expectedLogN p recs mc data st O1 O2 := by
-    show (((t.wlog ++ owedPreamble p mc recs) ++ O1) ++ streamRecords 6 p.id data) ++ O2 ++
-      makeRequestEpilogue p.id st [RT.stdout, RT.stderr] = _
-    rw [epilogue_eq]
-    simp only [expectedLogN, List.append_assoc]
-  have hem' : c'.env.tr.endMode = t.endMode := hem
-  rcases hres with ⟨hrun, hfin⟩ | ⟨hrun, hpk⟩
-  · refine ⟨c', "RET", O1, O2, hrun, hO.trans hOt.symm, hfin.ev, hfin.re, hfin.log.trans hlog, ?_⟩
-    rcases hfin.why with hk | ⟨hk, he⟩
-    · exact Or.inl ⟨hk, rfl, hfin.ph⟩
-    · exact Or.inr (Or.inl ⟨hk, hem'.symm.trans he, rfl, hfin.ph⟩)
-  · exact ⟨c', "STALL", O1, O2, hrun, hO.trans hOt.symm, hpk.ev, hpk.re, hpk.log.trans hlog,
-      Or.inr (Or.inr ⟨hpk.keep, hem'.symm.trans hpk.em, rfl, hpk.ph, hpk.inp⟩)⟩
+  have hOt : owedStream p.id 5 mc srecs = owedStream p.id 5 mc body := by
+    rw [hsrecs, owedStream_append, owedStream_term p.id 5 mc _ rfl, List.append_nil]
+  obtain ⟨c', fin, O1, O2, hrun, hO, _, hre, ho⟩ := run_cfg ok hW rfl rfl hben hev hfuel hsize
+  exact ⟨c', fin, O1, O2, hrun, hO.trans hOt.symm,
+    (ho.with_reads [content] (fun d hd => by rw [List.mem_singleton.1 hd]; exact hre _ (by simp [cfgR]))).responder⟩
 
 /-- **`single_request_e2e_full` holds.** -/
 theorem single_request_e2e_full_holds : single_request_e2e_full := by
@@ -243,47 +349,222 @@ theorem single_request_e2e_ideal {p : Preamble} {recs : List Rec} {content : Byt
     ⟨(by rw [hrd]; intro a ha; cases ha), (by rw [hwr]; intro a ha; cases ha), hhold, hem⟩ hev
     (by rw [hrd, hwr]; exact Nat.le_refl _) hsize hhf
 
+/-- **C07 end to end, one Authorizer request**: a well-formed preamble with `role = 2` and nothing
+after it (an Authorizer has no input stream); the canonical Authorizer handler opens Stdout at once.
+Same transport hypotheses, same conclusions; no `readAll`, and the log has no stream-noise replies. -/
+theorem single_request_e2e_authorizer {p : Preamble} {recs : List Rec}
+    {b mc : Nat} {data : Bytes} {st : ExitStatus} {t : Transport} {fuel : Nat}
+    (hwf : WellFormedPreamble p recs) (hrole : p.role = 2)
+    (hpairs : ∀ q ∈ p.pairs, (NV.enc q).length ≤ alignedBufsize b)
+    (hnoise : NoiseFits (alignedBufsize b) recs)
+    (hin : t.input = serAll recs) (hben : Ben t) (hev : hsCount t.events = 0)
+    (hfuel : t.rd.length + t.wr.length + 1 ≤ fuel)
+    (hsize : 4 * t.input.length + 17 ≤ 100000)
+    (hhf : wcost data.length + 4 ≤ 1000) :
+    ∃ c' fin, runTask fuel (connS b mc t [(canonicalA data st, true)]) 0 none = (c', fin) ∧
+      OutcomeG p [] b mc t.wlog (expectedLog p recs mc data st) t c' fin := by
+  have ok : (cfgA p recs b mc data st t.wlog 0 []).OK :=
+    ⟨hwf, hpairs, hnoise, .authorizer hrole rfl rfl rfl rfl rfl hhf⟩
+  have hW : t.input = (cfgA p recs b mc data st t.wlog 0 []).W := by
+    rw [hin]; exact (List.append_nil _).symm
+  obtain ⟨c', fin, O1, O2, hrun, hO, _, hre, ho⟩ := run_cfg ok hW rfl rfl hben hev hfuel hsize
+  obtain ⟨h1, h2⟩ := List.append_eq_nil_iff.1 (show O1 ++ O2 = [] from hO)
+  subst h1 h2
+  exact ⟨c', fin, hrun, by rw [← expectedLogN_nil]; exact ho⟩
+
+/-- **C07 end to end, one Filter request**: a well-formed preamble with `role = 3`, then the Stdin
+stream, then the Data stream (each with any noise within the buffer bound, each closed by its empty
+record); the canonical Filter handler reads Stdin to its end, switches to Data (`set_stream`), reads
+Data to its end and then answers like the Responder.  `O₁ ++ O₂` = the replies owed for the noise in
+the Stdin stream followed by those for the noise in the Data stream; what the last `parse` call of the
+Data stream generated is written by `close`, after the handler's output (`O₂`). -/
+theorem single_request_e2e_filter {p : Preamble} {recs : List Rec} {content : Bytes} {srecs : List Rec}
+    {content2 : Bytes} {drecs : List Rec}
+    {b mc : Nat} {data : Bytes} {st : ExitStatus} {t : Transport} {fuel : Nat}
+    (hwf : WellFormedPreamble p recs) (hrole : p.role = 3)
+    (hpairs : ∀ q ∈ p.pairs, (NV.enc q).length ≤ alignedBufsize b)
+    (hnoise : NoiseFits (alignedBufsize b) recs)
+    (hs : StreamRecs p.id 5 content srecs) (hsn : NoiseFits (alignedBufsize b) srecs)
+    (hd : StreamRecs p.id 8 content2 drecs) (hdn : NoiseFits (alignedBufsize b) drecs)
+    (hin : t.input = serAll recs ++ (serAll srecs ++ serAll drecs)) (hben : Ben t) (hev : hsCount t.events = 0)
+    (hfuel : t.rd.length + t.wr.length + 1 ≤ fuel)
+    (hsize : 4 * t.input.length + 17 ≤ 100000)
+    (hhf : alignedBufsize b / 16 + wcost data.length + 24 ≤ 1000) :
+    ∃ c' fin O₁ O₂, runTask fuel (connS b mc t [(canonicalF data st, true)]) 0 none = (c', fin) ∧
+      O₁ ++ O₂ = owedStream p.id 5 mc srecs ++ owedStream p.id 8 mc drecs ∧
+      OutcomeG p [content, content2] b mc t.wlog (expectedLogN p recs mc data st O₁ O₂) t c' fin := by
+  obtain ⟨body, pad, res, hpad, hbody, hsrecs⟩ := StreamRecs.split hs
+  obtain ⟨body2, pad2, res2, hpad2, hbody2, hdrecs⟩ := StreamRecs.split hd
+  have hsb : NoiseFits (alignedBufsize b) body := fun r hr => hsn r (by rw [hsrecs]; simp [hr])
+  have hdb : NoiseFits (alignedBufsize b) body2 := fun r hr => hdn r (by rw [hdrecs]; simp [hr])
+  have ok : (cfgF p recs content body pad res content2 body2 pad2 res2 b mc data st t.wlog 0 []).OK :=
+    ⟨hwf, hpairs, hnoise, .filter hrole hbody hbody2 hsb hdb hpad hpad2 rfl rfl rfl rfl rfl rfl hhf⟩
+  have hW : t.input = (cfgF p recs content body pad res content2 body2 pad2 res2 b mc data st t.wlog 0 []).W := by
+    rw [hin, hsrecs, hdrecs, C02.serAll_append, C02.serAll_single, C02.serAll_append, C02.serAll_single,
+      List.append_assoc]
+    rfl
+  have hOt : owedStream p.id 5 mc srecs ++ owedStream p.id 8 mc drecs =
+      owedStream p.id 5 mc body ++ owedStream p.id 8 mc body2 := by
+    rw [hsrecs, hdrecs, owedStream_append, owedStream_append, owedStream_term p.id 5 mc _ rfl,
+      owedStream_term p.id 8 mc _ rfl, List.append_nil, List.append_nil]
+  obtain ⟨c', fin, O1, O2, hrun, hO, _, hre, ho⟩ := run_cfg ok hW rfl rfl hben hev hfuel hsize
+  refine ⟨c', fin, O1, O2, hrun, hO.trans hOt.symm, ho.with_reads _ (fun d hd => ?_)⟩
+  rcases List.mem_cons.1 hd with rfl | hd
+  · exact hre _ (by simp [cfgF])
+  · rw [List.mem_singleton.1 hd]; exact hre _ (by simp [cfgF])
+
 /-! ## Several requests on one connection (closed-loop client) -/
 
-/-- One request as the client sends it (the Stdin stream split into its records before the
-terminating empty record, and that record's padding / reserved byte), and what the handler does with
-it (`data` to Stdout, exit status `st`). -/
-structure Sent where
-  p : Preamble
-  recs : List Rec
-  content : Bytes
-  body : List Rec
-  pad : Bytes
-  res : UInt8
-  data : Bytes
-  st : ExitStatus
+/-- One request as the client sends it — of any of the three roles; each input stream split into its
+records before the terminating empty record (`body`) and that record's padding / reserved byte — and
+what the handler does with it (`data` to Stdout, exit status `st`). -/
+inductive Sent
+  | responder (p : Preamble) (recs : List Rec) (content : Bytes) (body : List Rec) (pad : Bytes) (res : UInt8)
+      (data : Bytes) (st : ExitStatus)
+  | authorizer (p : Preamble) (recs : List Rec) (data : Bytes) (st : ExitStatus)
+  | filter (p : Preamble) (recs : List Rec) (content : Bytes) (body : List Rec) (pad : Bytes) (res : UInt8)
+      (content2 : Bytes) (body2 : List Rec) (pad2 : Bytes) (res2 : UInt8) (data : Bytes) (st : ExitStatus)
 
 namespace Sent
+def p : Sent → Preamble
+  | .responder p .. => p
+  | .authorizer p .. => p
+  | .filter p .. => p
+def recs : Sent → List Rec
+  | .responder _ recs .. => recs
+  | .authorizer _ recs .. => recs
+  | .filter _ recs .. => recs
+def data : Sent → Bytes
+  | .responder _ _ _ _ _ _ data _ => data
+  | .authorizer _ _ data _ => data
+  | .filter _ _ _ _ _ _ _ _ _ _ data _ => data
+def st : Sent → ExitStatus
+  | .responder _ _ _ _ _ _ _ st => st
+  | .authorizer _ _ _ st => st
+  | .filter _ _ _ _ _ _ _ _ _ _ _ st => st
 /-- the records of the Stdin stream -/
-def srecs (q : Sent) : List Rec :=
-  q.body ++ [{ rtype := 5, id := q.p.id, content := [], pad := q.pad, reserved := q.res }]
+def srecs : Sent → List Rec
+  | .responder p _ _ body pad res _ _ => body ++ [trec 5 p.id pad res]
+  | .authorizer .. => []
+  | .filter p _ _ body pad res .. => body ++ [trec 5 p.id pad res]
+/-- the records of the Data stream -/
+def drecs : Sent → List Rec
+  | .responder .. => []
+  | .authorizer .. => []
+  | .filter p _ _ _ _ _ _ body2 pad2 res2 _ _ => body2 ++ [trec 8 p.id pad2 res2]
 /-- the bytes the client sends for the request -/
-def wire (q : Sent) : Bytes := serAll q.recs ++ serAll q.srecs
+def wire (q : Sent) : Bytes := serAll q.recs ++ (serAll q.srecs ++ serAll q.drecs)
+/-- what the handler's `readAll`s must return -/
+def reads : Sent → List Bytes
+  | .responder _ _ content .. => [content]
+  | .authorizer .. => []
+  | .filter _ _ content _ _ _ content2 .. => [content, content2]
+/-- the replies owed for the noise inside the input streams -/
+def owed (mc : Nat) (q : Sent) : Bytes :=
+  owedStream q.p.id 5 mc q.srecs ++ owedStream q.p.id 8 mc q.drecs
 /-- the handler script for the request -/
-def handler (q : Sent) : List HOp × Bool := (canonical q.data q.st, true)
+def handler : Sent → List HOp × Bool
+  | .responder _ _ _ _ _ _ data st => (canonical data st, true)
+  | .authorizer _ _ data st => (canonicalA data st, true)
+  | .filter _ _ _ _ _ _ _ _ _ _ data st => (canonicalF data st, true)
 
-/-- The hypotheses of `single_request_e2e` on one request. -/
-structure OK (q : Sent) (b mc : Nat) : Prop where
-  wf : WellFormedPreamble q.p q.recs
-  role : q.p.role = 1
-  pairs : ∀ x ∈ q.p.pairs, (NV.enc x).length ≤ alignedBufsize b
-  noise : NoiseFits (alignedBufsize b) q.recs
-  stream : StreamRecs q.p.id 5 q.content q.srecs
-  sfits : NoiseFits (alignedBufsize b) q.srecs
-  hsize : 4 * q.wire.length + 17 ≤ 100000
-  hhf : alignedBufsize b / 32 + wcost q.data.length + 12 ≤ 1000
+/-- The hypotheses of `single_request_e2e` / `…_authorizer` / `…_filter` on one request. -/
+def OK (b : Nat) (q : Sent) : Prop :=
+  WellFormedPreamble q.p q.recs ∧ (∀ x ∈ q.p.pairs, (NV.enc x).length ≤ alignedBufsize b) ∧
+  NoiseFits (alignedBufsize b) q.recs ∧ NoiseFits (alignedBufsize b) q.srecs ∧
+  NoiseFits (alignedBufsize b) q.drecs ∧ 4 * q.wire.length + 17 ≤ 100000 ∧
+  match q with
+  | .responder p _ content body pad res data _ =>
+    p.role = 1 ∧ StreamRecs p.id 5 content (body ++ [trec 5 p.id pad res]) ∧
+      alignedBufsize b / 32 + wcost data.length + 12 ≤ 1000
+  | .authorizer p _ data _ => p.role = 2 ∧ wcost data.length + 4 ≤ 1000
+  | .filter p _ content body pad res content2 body2 pad2 res2 data _ =>
+    p.role = 3 ∧ StreamRecs p.id 5 content (body ++ [trec 5 p.id pad res]) ∧
+      StreamRecs p.id 8 content2 (body2 ++ [trec 8 p.id pad2 res2]) ∧
+      alignedBufsize b / 16 + wcost data.length + 24 ≤ 1000
+
+/-- the request's configuration (`L0`: the write log when it starts, `h`: handler starts before it,
+`more`: the scripts of the requests after it) -/
+def cfg (b mc : Nat) (L0 : Bytes) (h : Nat) (more : List (List HOp × Bool)) : Sent → E2E.Cfg
+  | .responder p recs content body pad res data st => cfgR p recs content body pad res b mc data st L0 h more
+  | .authorizer p recs data st => cfgA p recs b mc data st L0 h more
+  | .filter p recs content body pad res content2 body2 pad2 res2 data st =>
+    cfgF p recs content body pad res content2 body2 pad2 res2 b mc data st L0 h more
 end Sent
 
+section cfg
+variable (b mc : Nat) (L0 : Bytes) (h : Nat) (more : List (List HOp × Bool)) (q : Sent)
+
+theorem cfg_p : (q.cfg b mc L0 h more).p = q.p := by cases q <;> rfl
+theorem cfg_recs : (q.cfg b mc L0 h more).recs = q.recs := by cases q <;> rfl
+theorem cfg_data : (q.cfg b mc L0 h more).data = q.data := by cases q <;> rfl
+theorem cfg_st : (q.cfg b mc L0 h more).st = q.st := by cases q <;> rfl
+theorem cfg_b : (q.cfg b mc L0 h more).b = b := by cases q <;> rfl
+theorem cfg_mc : (q.cfg b mc L0 h more).mc = mc := by cases q <;> rfl
+theorem cfg_L0 : (q.cfg b mc L0 h more).L0 = L0 := by cases q <;> rfl
+theorem cfg_hs0 : (q.cfg b mc L0 h more).hs0 = h := by cases q <;> rfl
+theorem cfg_more : (q.cfg b mc L0 h more).more = more := by cases q <;> rfl
+theorem cfg_hscript : ((q.cfg b mc L0 h more).hscript, true) = q.handler := by cases q <;> rfl
+theorem cfg_revs : (q.cfg b mc L0 h more).revs = q.reads.map rEvent := by cases q <;> rfl
+theorem cfg_at (L : Bytes) : (q.cfg b mc L0 h more).at L = q.cfg b mc L h more := by cases q <;> rfl
+
+theorem cfg_W : (q.cfg b mc L0 h more).W = q.wire := by
+  cases q <;>
+    simp [Sent.cfg, Sent.wire, Sent.srecs, Sent.drecs, Sent.recs, E2E.Cfg.W, cfgR, cfgA, cfgF, serAll]
+
+theorem cfg_L3 (O1 O2 : Bytes) :
+    (q.cfg b mc L0 h more).L3 O1 O2 = L0 ++ expectedLogN q.p q.recs mc q.data q.st O1 O2 := by
+  rw [L3_eq, cfg_p, cfg_recs, cfg_data, cfg_st, cfg_mc, cfg_L0]
+
+theorem cfg_Ot : (q.cfg b mc L0 h more).Ot = q.owed mc := by
+  cases q with
+  | responder p recs content body pad res data st =>
+    show owedStream p.id 5 mc body = owedStream p.id 5 mc (body ++ [trec 5 p.id pad res]) ++ owedStream p.id 8 mc []
+    rw [owedStream_append, trec, owedStream_term p.id 5 mc _ rfl]
+    simp [owedStream]
+  | authorizer p recs data st => rfl
+  | filter p recs content body pad res content2 body2 pad2 res2 data st =>
+    show owedStream p.id 5 mc body ++ owedStream p.id 8 mc body2 =
+      owedStream p.id 5 mc (body ++ [trec 5 p.id pad res]) ++ owedStream p.id 8 mc (body2 ++ [trec 8 p.id pad2 res2])
+    rw [owedStream_append, owedStream_append, trec, trec, owedStream_term p.id 5 mc _ rfl,
+      owedStream_term p.id 8 mc _ rfl, List.append_nil, List.append_nil]
+end cfg
+
+/-- a `StreamRecs` list given as `body ++ [terminator]` -/
+theorem body_of_stream {id s : Nat} {content : Bytes} {body : List Rec} {pad : Bytes} {res : UInt8}
+    (h : StreamRecs id s content (body ++ [trec (UInt8.ofNat s) id pad res])) :
+    Body id s content body ∧ pad.length < 256 := by
+  obtain ⟨body', pad', res', hp', hb', heq⟩ := StreamRecs.split h
+  obtain ⟨e1, e2⟩ := List.append_inj' heq rfl
+  have e3 : pad = pad' := congrArg Rec.pad (List.singleton_inj.1 e2)
+  rw [e1, e3]
+  exact ⟨hb', hp'⟩
+
+theorem cfg_ok {b mc : Nat} {q : Sent} (ok : q.OK b) (L0 : Bytes) (h : Nat)
+    (more : List (List HOp × Bool)) : (q.cfg b mc L0 h more).OK := by
+  obtain ⟨hwf, hpairs, hnoise, hsn, hdn, _, hrole⟩ := ok
+  cases q with
+  | responder p recs content body pad res data st =>
+    obtain ⟨hr, hs, hfu⟩ := hrole
+    obtain ⟨hb, hp⟩ := body_of_stream (s := 5) hs
+    exact ⟨hwf, hpairs, hnoise, .responder hr hb (fun r hr => hsn r (List.mem_append_left _ hr)) hp rfl rfl rfl rfl
+      rfl rfl hfu⟩
+  | authorizer p recs data st =>
+    exact ⟨hwf, hpairs, hnoise, .authorizer hrole.1 rfl rfl rfl rfl rfl hrole.2⟩
+  | filter p recs content body pad res content2 body2 pad2 res2 data st =>
+    obtain ⟨hr, hs, hd, hfu⟩ := hrole
+    obtain ⟨hb, hp⟩ := body_of_stream (s := 5) hs
+    obtain ⟨hb2, hp2⟩ := body_of_stream (s := 8) hd
+    exact ⟨hwf, hpairs, hnoise, .filter hr hb hb2 (fun r hr => hsn r (List.mem_append_left _ hr))
+      (fun r hr => hdn r (List.mem_append_left _ hr)) hp hp2 rfl rfl rfl rfl rfl rfl hfu⟩
+
+theorem Sent.OK.hsize {b : Nat} {q : Sent} (ok : q.OK b) : 4 * q.wire.length + 17 ≤ 100000 := ok.2.2.2.2.2.1
+
 /-- `A` is what the connection writes for the requests, in order: for each request its answer
-(`expectedLogN`) with some split `O₁ ++ O₂` of the replies owed for its stream's noise. -/
+(`expectedLogN`) with some split `O₁ ++ O₂` of the replies owed for the noise in its input streams. -/
 def AnswerAll (mc : Nat) : List Sent → Bytes → Prop
   | [], A => A = []
-  | q :: qs, A => ∃ O₁ O₂ rest, O₁ ++ O₂ = owedStream q.p.id 5 mc q.srecs ∧ AnswerAll mc qs rest ∧
+  | q :: qs, A => ∃ O₁ O₂ rest, O₁ ++ O₂ = q.owed mc ∧ AnswerAll mc qs rest ∧
       A = expectedLogN q.p q.recs mc q.data q.st O₁ O₂ ++ rest
 
 /-- … when no stream noise owes a reply -/
@@ -292,7 +573,7 @@ def expectedAll (mc : Nat) : List Sent → Bytes
   | q :: qs => expectedLog q.p q.recs mc q.data q.st ++ expectedAll mc qs
 
 theorem answerAll_quiet (mc : Nat) : ∀ (qs : List Sent) (A : Bytes),
-    (∀ q ∈ qs, owedStream q.p.id 5 mc q.srecs = []) → AnswerAll mc qs A → A = expectedAll mc qs
+    (∀ q ∈ qs, q.owed mc = []) → AnswerAll mc qs A → A = expectedAll mc qs
   | [], A, _, h => h
   | q :: qs, A, hq, ⟨O1, O2, rest, hO, hr, hA⟩ => by
     rw [hq q List.mem_cons_self] at hO
@@ -302,93 +583,56 @@ theorem answerAll_quiet (mc : Nat) : ∀ (qs : List Sent) (A : Bytes),
     rfl
 
 /-- the connection task with one handler script per request to come -/
-def connK (b mc : Nat) (t : Transport) (qs : List Sent) : Conn :=
-  { phase := .parseReq (Req.Parser.new b mc) .start, env := { tr := t, segs := [] },
-    scripts := qs.map Sent.handler }
-
-def cfgOf (b mc : Nat) (q : Sent) (L0 : Bytes) (h : Nat) (more : List (List HOp × Bool)) : E2E.Cfg :=
-  ⟨q.p, q.recs, q.content, q.body, q.pad, q.res, b, mc, q.data, q.st, L0, h, more⟩
+def connK (b mc : Nat) (t : Transport) (qs : List Sent) : Conn := connS b mc t (qs.map Sent.handler)
 
 /-- the configurations of the requests after the first (their `L0` is threaded by `chain_run`) -/
 def cfgs (b mc : Nat) : Nat → List Sent → List E2E.Cfg
   | _, [] => []
-  | h, q :: qs => cfgOf b mc q [] h (qs.map Sent.handler) :: cfgs b mc (h + 1) qs
-
-theorem cfgOf_W (b mc : Nat) (q : Sent) (L0 : Bytes) (h : Nat) (more : List (List HOp × Bool)) :
-    (cfgOf b mc q L0 h more).W = q.wire := by
-  simp only [E2E.Cfg.W, E2E.Cfg.X, Sent.wire, Sent.srecs, C02.serAll_append, C02.serAll_single]
-  rfl
-
-theorem cfgOf_L3 (b mc : Nat) (q : Sent) (L0 : Bytes) (h : Nat) (more : List (List HOp × Bool))
-    (O1 O2 : Bytes) :
-    (cfgOf b mc q L0 h more).L3 O1 O2 = L0 ++ expectedLogN q.p q.recs mc q.data q.st O1 O2 := by
-  show (((L0 ++ owedPreamble q.p mc q.recs) ++ O1) ++ streamRecords 6 q.p.id q.data) ++ O2 ++
-    makeRequestEpilogue q.p.id q.st [RT.stdout, RT.stderr] = _
-  rw [epilogue_eq]
-  simp only [expectedLogN, List.append_assoc]
-
-theorem cfgOf_Ot (b mc : Nat) (q : Sent) (L0 : Bytes) (h : Nat) (more : List (List HOp × Bool)) :
-    (cfgOf b mc q L0 h more).Ot = owedStream q.p.id 5 mc q.srecs := by
-  rw [Sent.srecs, owedStream_append, owedStream_term, List.append_nil]
-  rfl
-
-theorem cfgOf_ok {b mc : Nat} {q : Sent} (ok : q.OK b mc) (L0 : Bytes) (h : Nat)
-    (more : List (List HOp × Bool)) : (cfgOf b mc q L0 h more).OK := by
-  obtain ⟨body', pad', res', hp', hb', heq⟩ := StreamRecs.split ok.stream
-  obtain ⟨e1, e2⟩ := List.append_inj' heq rfl
-  have e3 : q.pad = pad' := by
-    have := List.singleton_inj.1 e2
-    exact congrArg Rec.pad this
-  have hsb : NoiseFits (alignedBufsize b) q.body := fun r hr => ok.sfits r (by simp [Sent.srecs, hr])
-  exact ⟨ok.wf, ok.role, ok.pairs, ok.noise, by show Body q.p.id 5 q.content q.body; rw [e1]; exact hb', hsb,
-    by show q.pad.length < 256; rw [e3]; exact hp', ok.hhf⟩
+  | h, q :: qs => q.cfg b mc [] h (qs.map Sent.handler) :: cfgs b mc (h + 1) qs
 
 theorem cfgs_W (b mc : Nat) : ∀ (qs : List Sent) (h : Nat),
     (cfgs b mc h qs).map E2E.Cfg.W = qs.map Sent.wire
   | [], _ => rfl
   | q :: qs, h => by
-    simp only [cfgs, List.map_cons, cfgOf_W, cfgs_W b mc qs]
+    simp only [cfgs, List.map_cons, cfg_W, cfgs_W b mc qs]
 
-theorem cfgs_ok {b mc : Nat} : ∀ (qs : List Sent) (h : Nat), (∀ q ∈ qs, q.OK b mc) →
+theorem cfgs_ok {b mc : Nat} : ∀ (qs : List Sent) (h : Nat), (∀ q ∈ qs, q.OK b) →
     ∀ g ∈ cfgs b mc h qs, g.OK ∧ 4 * g.W.length + 17 ≤ 100000
   | [], _, _ => fun g hg => by simp [cfgs] at hg
   | q :: qs, h, hok => by
     intro g hg
     simp only [cfgs, List.mem_cons] at hg
     rcases hg with rfl | hg
-    · exact ⟨cfgOf_ok (hok q List.mem_cons_self) _ _ _, by rw [cfgOf_W]; exact (hok q List.mem_cons_self).hsize⟩
+    · exact ⟨cfg_ok (hok q List.mem_cons_self) _ _ _, by rw [cfg_W]; exact (hok q List.mem_cons_self).hsize⟩
     · exact cfgs_ok qs _ (fun q' hq' => hok q' (List.mem_cons_of_mem _ hq')) g hg
 
 theorem chain_cfgs {b mc : Nat} : ∀ (qs : List Sent) (q : Sent) (L0 : Bytes) (h : Nat),
     (∀ q' ∈ (q :: qs).dropLast, q'.p.flags.toNat % 2 = 1) →
-    ChainFrom (cfgOf b mc q L0 h (qs.map Sent.handler)) (cfgs b mc (h + 1) qs)
+    ChainFrom (q.cfg b mc L0 h (qs.map Sent.handler)) (cfgs b mc (h + 1) qs)
   | [], _, _, _, _ => trivial
   | q2 :: qs, q, L0, h, hk => by
-    refine ⟨⟨rfl, rfl, rfl, rfl, hk q (by simp [List.dropLast])⟩, ?_⟩
+    refine ⟨⟨by rw [cfg_b, cfg_b], by rw [cfg_mc, cfg_mc], by rw [cfg_hs0, cfg_hs0],
+      by rw [cfg_more, cfg_more, cfg_hscript]; rfl, by rw [cfg_p]; exact hk q (by simp [List.dropLast])⟩, ?_⟩
     exact chain_cfgs qs q2 _ _ (fun q' hq' => hk q' (by
       rw [List.dropLast_cons_cons]
       exact List.mem_cons_of_mem _ hq'))
 
 /-- the logs of the chain are the answers of the requests -/
 theorem logChain_answers {b mc : Nat} : ∀ (qs : List Sent) (q : Sent) (L0 L L' : Bytes) (h : Nat),
-    LogChain L (cfgOf b mc q L0 h (qs.map Sent.handler) :: cfgs b mc (h + 1) qs) L' →
+    LogChain L (q.cfg b mc L0 h (qs.map Sent.handler) :: cfgs b mc (h + 1) qs) L' →
     ∃ A, AnswerAll mc (q :: qs) A ∧ L' = L ++ A
   | [], q, L0, L, L', h, ⟨O1, O2, hO, hr⟩ => by
     have hr' : L' = _ := hr
-    refine ⟨_, ⟨O1, O2, [], by rw [← cfgOf_Ot b mc q L0 h []]; exact hO, rfl, rfl⟩, ?_⟩
-    rw [hr']
-    show (cfgOf b mc q L h []).L3 O1 O2 = _
-    rw [cfgOf_L3, List.append_nil]
+    refine ⟨_, ⟨O1, O2, [], by rw [← cfg_Ot b mc L0 h [] q]; exact hO, rfl, rfl⟩, ?_⟩
+    rw [hr', cfg_at, cfg_L3, List.append_nil]
   | q2 :: qs, q, L0, L, L', h, ⟨O1, O2, hO, hr⟩ => by
     obtain ⟨A, hA, hL'⟩ := logChain_answers qs q2 [] _ L' (h + 1) hr
-    refine ⟨_, ⟨O1, O2, A, by rw [← cfgOf_Ot b mc q L0 h ((q2 :: qs).map Sent.handler)]; exact hO, hA, rfl⟩, ?_⟩
-    rw [hL']
-    show (cfgOf b mc q L h _).L3 O1 O2 ++ A = _
-    rw [cfgOf_L3, List.append_assoc]
+    refine ⟨_, ⟨O1, O2, A, by rw [← cfg_Ot b mc L0 h ((q2 :: qs).map Sent.handler) q]; exact hO, hA, rfl⟩, ?_⟩
+    rw [hL', cfg_at, cfg_L3, List.append_assoc]
 
 theorem lastP_cfgs {b mc : Nat} : ∀ (qs : List Sent) (q : Sent) (L0 : Bytes) (h : Nat),
-    ∃ L', lastP (cfgOf b mc q L0 h (qs.map Sent.handler)) (cfgs b mc (h + 1) qs) =
-      cfgOf b mc ((q :: qs).getLast (by simp)) L' (h + qs.length) []
+    ∃ L', lastP (q.cfg b mc L0 h (qs.map Sent.handler)) (cfgs b mc (h + 1) qs) =
+      ((q :: qs).getLast (by simp)).cfg b mc L' (h + qs.length) []
   | [], q, L0, h => ⟨L0, rfl⟩
   | q2 :: qs, q, L0, h => by
     obtain ⟨L', hL'⟩ := lastP_cfgs qs q2 [] (h + 1)
@@ -398,82 +642,101 @@ theorem lastP_cfgs {b mc : Nat} : ∀ (qs : List Sent) (q : Sent) (L0 : Bytes) (
     congr 1
     omega
 
-/-- **C07 end to end, several requests** (same hypotheses as `single_request_e2e`, for every request;
-plus: the peer is the closed-loop client of `closedLoop` — it sends the next request when the task
-has parked — and never closes its end, `t.endMode = .pend`).
+/-- **C07 end to end, several requests of any roles** (same hypotheses as `single_request_e2e` /
+`…_authorizer` / `…_filter`, for every request; plus: the peer is the closed-loop client of
+`closedLoop` — it sends the next request when the task has parked — and never closes its end,
+`t.endMode = .pend`).
 
 A client sends `q₁, …, q_k` on one connection, all but the last with KEEP_CONN, each after the answer
-to the previous one.  Then every request gets its own handler call (with its own request and Stdin
-content), the write log is the concatenation of the `k` answers in order and nothing else, and the
-task ends parked for a `(k+1)`-th request (last request KEEP_CONN) or returns (otherwise). -/
+to the previous one.  Then every request gets its own handler call (with its own request, its
+`readAll`s returning its input streams' contents), the write log is the concatenation of the `k`
+answers in order and nothing else, and the task ends parked for a `(k+1)`-th request (last request
+KEEP_CONN) or returns (otherwise). -/
 theorem k_requests_e2e {b mc : Nat} (q : Sent) (qs : List Sent) {t : Transport} {fuel : Nat}
-    (hok : ∀ q' ∈ q :: qs, q'.OK b mc)
+    (hok : ∀ q' ∈ q :: qs, q'.OK b)
     (hkeep : ∀ q' ∈ (q :: qs).dropLast, q'.p.flags.toNat % 2 = 1)
     (hin : t.input = q.wire) (hben : Ben t) (hem : t.endMode = .pend) (hev : hsCount t.events = 0)
     (hfuel : t.rd.length + t.wr.length + 1 ≤ fuel) :
     ∃ c' fin A, closedLoop fuel (qs.map Sent.wire) (connK b mc t (q :: qs)) 0 = (c', fin) ∧
       AnswerAll mc (q :: qs) A ∧ c'.env.tr.wlog = t.wlog ++ A ∧
       hsCount c'.env.tr.events = (q :: qs).length ∧
-      (∀ q' ∈ q :: qs, startEvent q'.p.request ∈ c'.env.tr.events ∧ readEvent q'.content ∈ c'.env.tr.events) ∧
+      (∀ q' ∈ q :: qs, startEvent q'.p.request ∈ c'.env.tr.events ∧
+        ∀ d ∈ q'.reads, readEvent d ∈ c'.env.tr.events) ∧
       c'.scripts = [] ∧
       ((((q :: qs).getLast (by simp)).p.flags.toNat % 2 = 1 ∧ fin = "STALL" ∧
           c'.phase = .parseReq ⟨alignedBufsize b, [], .header, mc⟩ .reading ∧ c'.env.tr.input = []) ∨
        (((q :: qs).getLast (by simp)).p.flags.toNat % 2 = 0 ∧ fin = "RET" ∧ c'.phase = .finished)) := by
   have okq := hok q List.mem_cons_self
-  have hstage : Stage (cfgOf b mc q t.wlog 0 (qs.map Sent.handler)) (connK b mc t (q :: qs)) :=
-    .start (raw := []) rfl (by show [] ++ t.input = _; rw [cfgOf_W, hin]; rfl) (Nat.zero_le _) rfl hben rfl rfl rfl hev
+  have hstage : Stage (q.cfg b mc t.wlog 0 (qs.map Sent.handler)) (connK b mc t (q :: qs)) :=
+    .start (raw := [])
+      (by show Phase.parseReq (Req.Parser.new b mc) .start =
+            .parseReq ⟨alignedBufsize (q.cfg b mc t.wlog 0 (qs.map Sent.handler)).b, [], .header,
+              (q.cfg b mc t.wlog 0 (qs.map Sent.handler)).mc⟩ .start
+          rw [cfg_b, cfg_mc]; rfl)
+      (by show [] ++ t.input = _; rw [cfg_W, hin]; rfl) (Nat.zero_le _) (cfg_L0 ..).symm hben rfl
+      (by rw [cfg_more, cfg_hscript]; rfl) rfl (by rw [cfg_hs0]; exact hev)
   obtain ⟨c', fin, hrun, _, hem', hlog, hend, hall⟩ := chain_run
     (cfgs b mc (0 + 1) qs)
-    (cfgOf b mc q t.wlog 0 (qs.map Sent.handler)) (connK b mc t (q :: qs)) 0 fuel hstage rfl hem
+    (q.cfg b mc t.wlog 0 (qs.map Sent.handler)) (connK b mc t (q :: qs)) 0 fuel hstage rfl hem
     (by show ans t + 1 ≤ fuel; unfold ans; omega)
     (by show 4 * t.input.length + 17 ≤ 100000; rw [hin]; exact okq.hsize)
-    (cfgOf_ok okq _ _ _)
+    (cfg_ok okq _ _ _)
     (cfgs_ok qs _ (fun q' hq' => hok q' (List.mem_cons_of_mem _ hq')))
     (chain_cfgs qs q _ _ hkeep)
   rw [cfgs_W] at hrun
+  rw [cfg_L0] at hlog
   obtain ⟨A, hA, hLA⟩ := logChain_answers qs q t.wlog t.wlog c'.env.tr.wlog 0 hlog
   obtain ⟨L', hgl⟩ := lastP_cfgs (b := b) (mc := mc) qs q t.wlog 0
   rw [hgl] at hend
-  have hallq : ∀ q' ∈ q :: qs, startEvent q'.p.request ∈ c'.env.tr.events ∧ readEvent q'.content ∈ c'.env.tr.events := by
+  have hallq : ∀ q' ∈ q :: qs, startEvent q'.p.request ∈ c'.env.tr.events ∧
+      ∀ d ∈ q'.reads, readEvent d ∈ c'.env.tr.events := by
     have key : ∀ (qs : List Sent) (h : Nat) (q' : Sent), q' ∈ qs →
-        ∃ g ∈ cfgs b mc h qs, g.p = q'.p ∧ g.content = q'.content := by
+        ∃ g ∈ cfgs b mc h qs, g.p = q'.p ∧ g.revs = q'.reads.map rEvent := by
       intro qs
       induction qs with
       | nil => intro _ _ h; cases h
       | cons a as ih =>
         intro h q' hq'
         rcases List.mem_cons.1 hq' with rfl | hq'
-        · exact ⟨_, by simp only [cfgs]; exact List.mem_cons_self, rfl, rfl⟩
+        · exact ⟨_, by simp only [cfgs]; exact List.mem_cons_self, cfg_p .., cfg_revs ..⟩
         · obtain ⟨g, hg, h1, h2⟩ := ih (h + 1) q' hq'
           exact ⟨g, by simp only [cfgs]; exact List.mem_cons_of_mem _ hg, h1, h2⟩
+    have conv : ∀ (g : E2E.Cfg) (q' : Sent), g.p = q'.p → g.revs = q'.reads.map rEvent →
+        (hsEvent g.p.request ∈ c'.env.tr.events ∧ ∀ s ∈ g.revs, s ∈ c'.env.tr.events) →
+        startEvent q'.p.request ∈ c'.env.tr.events ∧ ∀ d ∈ q'.reads, readEvent d ∈ c'.env.tr.events := by
+      intro g q' h1 h2 ⟨a, b⟩
+      rw [h1] at a
+      exact ⟨a, fun d hd => b _ (by rw [h2]; exact List.mem_map_of_mem hd)⟩
     intro q' hq'
     rcases List.mem_cons.1 hq' with h | hq'
     · rw [h]
-      exact hall (cfgOf b mc q t.wlog 0 (qs.map Sent.handler)) List.mem_cons_self
+      exact conv _ q (cfg_p ..) (cfg_revs ..) (hall (q.cfg b mc t.wlog 0 (qs.map Sent.handler)) List.mem_cons_self)
     · obtain ⟨g, hg, h1, h2⟩ := key qs (0 + 1) q' hq'
-      have := hall g (List.mem_cons_of_mem _ hg)
-      rw [h1, h2] at this
-      exact this
-  refine ⟨c', fin, A, hrun, hA, hLA, ?_, hallq, hend.sc, ?_⟩
+      exact conv g q' h1 h2 (hall g (List.mem_cons_of_mem _ hg))
+  refine ⟨c', fin, A, hrun, hA, hLA, ?_, hallq, by rw [← cfg_more b mc L' _ [] _]; exact hend.sc, ?_⟩
   · have := hend.hs
-    simp only [cfgOf, List.length_cons] at this ⊢
+    rw [cfg_hs0] at this
+    simp only [List.length_cons] at this ⊢
     omega
-  · rcases hend.fin with ⟨rfl, hph, hk | ⟨_, he⟩⟩ | ⟨rfl, hph, hinp, hk⟩
+  · have hfinal := hend.fin
+    simp only [E2E.Cfg.cap, cfg_p, cfg_mc, cfg_b] at hfinal
+    rcases hfinal with ⟨rfl, hph, hk | ⟨_, he⟩⟩ | ⟨rfl, hph, hinp, hk⟩
     · exact Or.inr ⟨hk, rfl, hph⟩
     · rw [hem'] at he; cases he
     · exact Or.inl ⟨hk, rfl, hph, hinp⟩
 
 /-- The instance where no stream noise owes a reply: the log is `expectedAll`. -/
 theorem k_requests_e2e_partial {b mc : Nat} (q : Sent) (qs : List Sent) {t : Transport} {fuel : Nat}
-    (hok : ∀ q' ∈ q :: qs, q'.OK b mc)
-    (hquiet : ∀ q' ∈ q :: qs, owedStream q'.p.id 5 mc q'.srecs = [])
+    (hok : ∀ q' ∈ q :: qs, q'.OK b)
+    (hquiet : ∀ q' ∈ q :: qs, q'.owed mc = [])
     (hkeep : ∀ q' ∈ (q :: qs).dropLast, q'.p.flags.toNat % 2 = 1)
     (hin : t.input = q.wire) (hben : Ben t) (hem : t.endMode = .pend) (hev : hsCount t.events = 0)
     (hfuel : t.rd.length + t.wr.length + 1 ≤ fuel) :
     ∃ c' fin, closedLoop fuel (qs.map Sent.wire) (connK b mc t (q :: qs)) 0 = (c', fin) ∧
       c'.env.tr.wlog = t.wlog ++ expectedAll mc (q :: qs) ∧
       hsCount c'.env.tr.events = (q :: qs).length ∧
-      (∀ q' ∈ q :: qs, startEvent q'.p.request ∈ c'.env.tr.events ∧ readEvent q'.content ∈ c'.env.tr.events) ∧
+      (∀ q' ∈ q :: qs, startEvent q'.p.request ∈ c'.env.tr.events ∧
+        ∀ d ∈ q'.reads, readEvent d ∈ c'.env.tr.events) ∧
       c'.scripts = [] ∧
       ((((q :: qs).getLast (by simp)).p.flags.toNat % 2 = 1 ∧ fin = "STALL" ∧
           c'.phase = .parseReq ⟨alignedBufsize b, [], .header, mc⟩ .reading ∧ c'.env.tr.input = []) ∨
@@ -481,6 +744,27 @@ theorem k_requests_e2e_partial {b mc : Nat} (q : Sent) (qs : List Sent) {t : Tra
   obtain ⟨c', fin, A, h1, h2, h3, h4⟩ := k_requests_e2e q qs hok hkeep hin hben hem hev hfuel
   rw [answerAll_quiet mc _ A hquiet h2] at h3
   exact ⟨c', fin, h1, h3, h4⟩
+
+/-! Names of the first version of this file (still listed in the audit of C07). -/
+
+theorem Outcome.no_panic {p recs content b mc data st L0 t c' fin}
+    (h : Outcome p recs content b mc data st L0 t c' fin) : fin = "RET" ∨ fin = "STALL" := OutcomeN.no_panic h
+
+abbrev cfgOf (b mc : Nat) (q : Sent) (L0 : Bytes) (h : Nat) (more : List (List HOp × Bool)) : E2E.Cfg :=
+  q.cfg b mc L0 h more
+
+theorem cfgOf_W (b mc : Nat) (q : Sent) (L0 : Bytes) (h : Nat) (more : List (List HOp × Bool)) :
+    (cfgOf b mc q L0 h more).W = q.wire := cfg_W ..
+
+theorem cfgOf_L3 (b mc : Nat) (q : Sent) (L0 : Bytes) (h : Nat) (more : List (List HOp × Bool)) (O1 O2 : Bytes) :
+    (cfgOf b mc q L0 h more).L3 O1 O2 = L0 ++ expectedLogN q.p q.recs mc q.data q.st O1 O2 := cfg_L3 ..
+
+theorem cfgOf_ok {b mc : Nat} {q : Sent} (ok : q.OK b) (L0 : Bytes) (h : Nat) (more : List (List HOp × Bool)) :
+    (cfgOf b mc q L0 h more).OK := cfg_ok ok ..
+
+theorem last_cfg {b mc : Nat} (qs : List Sent) (q : Sent) (L0 : Bytes) (h : Nat) :
+    ∃ L', lastP (cfgOf b mc q L0 h (qs.map Sent.handler)) (cfgs b mc (h + 1) qs) =
+      cfgOf b mc ((q :: qs).getLast (by simp)) L' (h + qs.length) [] := lastP_cfgs qs q L0 h
 
 /-! ## Non-vacuity: a concrete run
 
@@ -547,56 +831,202 @@ example : ∃ c', runTask 20 (conn0 64 10 exT [104, 105] (.complete 0)) 0 none =
     rw [List.nil_append]
     congr 1
 
-/-- two requests on the connection: the one above, then one with an empty Stdin, no output and exit
-status 7 (both KEEP_CONN) -/
+/-- A Stdin stream with noise that IS owed replies: a management `GetValues` record with a body in
+front, an unknown-type record right before the end. -/
+def nS : List Rec :=
+  [ { rtype := 9, id := 0, content := NV.enc (Vars.nameMaxConns, []), pad := [] },
+    { rtype := 5, id := 1, content := [65, 66, 67], pad := [0] },
+    { rtype := 77, id := 3, content := [1, 2], pad := [] },
+    { rtype := 5, id := 1, content := [], pad := [0, 0] } ]
+
+def nT : Transport :=
+  { input := serAll recs ++ serAll nS, endMode := .pend,
+    rd := [.n 10, .pending, .n 7, .all, .n 3], wr := [.n 5, .pending, .all, .n 1, .pending], fl := [] }
+
+theorem nS_ok : StreamRecs 1 5 [65, 66, 67] nS := by
+  refine .noise _ ⟨⟨by decide, by decide +kernel, by decide⟩, by decide⟩ ?_
+  refine .chunk [65, 66, 67] [0] 0 (by decide) (by decide) ?_
+  refine .noise _ ⟨⟨by decide, by decide, by decide⟩, by decide⟩ ?_
+  exact .term [0, 0] 0 (by decide)
+
+theorem nS_fits : NoiseFits (alignedBufsize 64) nS := by
+  refine noiseFits_of_content (fun r hr _ _ => ?_)
+  simp only [nS, List.mem_cons, List.not_mem_nil, or_false] at hr
+  rcases hr with rfl | rfl | rfl | rfl <;> decide +kernel
+
+/-- `single_request_e2e` applied to a stream whose noise owes replies: they are all written, split
+somehow around the handler's output. -/
+example : ∃ c' O₁ O₂, runTask 20 (conn0 64 10 nT [104, 105] (.complete 0)) 0 none = (c', "STALL") ∧
+    O₁ ++ O₂ = owedStream 1 5 10 nS ∧ owedStream 1 5 10 nS ≠ [] ∧
+    c'.env.tr.wlog = owedPreamble pre 10 recs ++ O₁ ++
+      [1, 6, 0, 1, 0, 2, 6, 0, 104, 105, 0, 0, 0, 0, 0, 0] ++ O₂ ++
+      [1, 6, 0, 1, 0, 0, 0, 0, 1, 7, 0, 1, 0, 0, 0, 0, 1, 3, 0, 1, 0, 8, 0, 0, 0, 0, 0, 0, 0, 0, 0, 0] ∧
+    readEvent [65, 66, 67] ∈ c'.env.tr.events := by
+  obtain ⟨c', fin, O1, O2, hrun, hO, ho⟩ := single_request_e2e (p := pre) (recs := recs) (content := [65, 66, 67])
+    (srecs := nS) (b := 64) (mc := 10) (data := [104, 105]) (st := .complete 0) (t := nT) (fuel := 20)
+    recs_wf rfl (pre_pairs_fit 64) (noise_fits 64) nS_ok nS_fits rfl ⟨by decide, by decide, rfl, by decide⟩ rfl
+    (by decide) (by decide +kernel) (by decide)
+  rcases ho.final with ⟨h, _⟩ | ⟨_, h, _⟩ | ⟨_, _, hfin, hph, hin⟩
+  · exact absurd h (by decide)
+  · exact absurd h (by decide)
+  · subst hfin
+    refine ⟨c', O1, O2, hrun, hO, by decide +kernel, ?_, ho.read_content⟩
+    rw [ho.log]
+    show [] ++ (owedPreamble pre 10 recs ++ O1 ++ streamRecords 6 1 [104, 105] ++ O2 ++ epilogue 1 (.complete 0)) = _
+    rw [List.nil_append]
+    congr 1
+
+/-! ### The other roles -/
+
+/-- Authorizer request 1, KEEP_CONN, no parameters. -/
+def preA : Preamble := { id := 1, role := 2, flags := 1, pairs := [] }
+def recsA : List Rec :=
+  [ { rtype := 1, id := 1, content := [0, 2, 1, 0, 0, 0, 0, 0], pad := [] },
+    { rtype := 4, id := 1, content := [], pad := [] } ]
+
+theorem recsA_wf : WellFormedPreamble preA recsA :=
+  .begin [] 0 [0, 0, 0, 0, 0] rfl (by decide) (by decide) (by decide) (fun q hq => by cases hq) (.done [] 0 (by decide))
+
+theorem no_getValues_fits {M : Nat} {rs : List Rec} (h : ∀ r ∈ rs, r.rtype.toNat ≠ RT.getValues) :
+    NoiseFits M rs := fun r hr hg => absurd hg.1 (h r hr)
+
+theorem recsA_fits (M : Nat) : NoiseFits M recsA := no_getValues_fits (by decide)
+
+/-- Filter request 1, no KEEP_CONN, no parameters. -/
+def preF : Preamble := { id := 1, role := 3, flags := 0, pairs := [] }
+def recsF : List Rec :=
+  [ { rtype := 1, id := 1, content := [0, 3, 0, 0, 0, 0, 0, 0], pad := [] },
+    { rtype := 4, id := 1, content := [], pad := [] } ]
+
+theorem recsF_wf : WellFormedPreamble preF recsF :=
+  .begin [] 0 [0, 0, 0, 0, 0] rfl (by decide) (by decide) (by decide) (fun q hq => by cases hq) (.done [] 0 (by decide))
+
+theorem recsF_fits (M : Nat) : NoiseFits M recsF := no_getValues_fits (by decide)
+
+/-- the Stdin stream `"AB"` and the Data stream `"xyz"` (with a management `GetValues` record in front) -/
+def fS : List Rec :=
+  [ { rtype := 5, id := 1, content := [65, 66], pad := [] }, { rtype := 5, id := 1, content := [], pad := [] } ]
+def fD : List Rec :=
+  [ { rtype := 9, id := 0, content := NV.enc (Vars.nameMaxConns, []), pad := [] },
+    { rtype := 8, id := 1, content := [120, 121, 122], pad := [] },
+    { rtype := 8, id := 1, content := [], pad := [0] } ]
+
+theorem fS_ok : StreamRecs 1 5 [65, 66] fS :=
+  .chunk [65, 66] [] 0 (by decide) (by decide) (.term [] 0 (by decide))
+
+theorem fD_ok : StreamRecs 1 8 [120, 121, 122] fD := by
+  refine .noise _ ⟨⟨by decide, by decide +kernel, by decide⟩, by decide⟩ ?_
+  exact .chunk [120, 121, 122] [] 0 (by decide) (by decide) (.term [0] 0 (by decide))
+
+theorem fD_fits : NoiseFits (alignedBufsize 64) fD := by
+  refine noiseFits_of_content (fun r hr _ _ => ?_)
+  simp only [fD, List.mem_cons, List.not_mem_nil, or_false] at hr
+  rcases hr with rfl | rfl | rfl <;> decide +kernel
+
+def aT : Transport :=
+  { input := serAll recsA, endMode := .eof, rd := [.n 3, .pending, .all], wr := [.n 9, .pending], fl := [] }
+
+/-- `single_request_e2e_authorizer` applied: handler started, `"ok"` and the epilogue written, and
+(KEEP_CONN, peer closed) the task returns. -/
+example : ∃ c', runTask 10 (connS 64 10 aT [(canonicalA [111, 107] (.complete 0), true)]) 0 none = (c', "RET") ∧
+    c'.env.tr.wlog = [1, 6, 0, 1, 0, 2, 6, 0, 111, 107, 0, 0, 0, 0, 0, 0] ++
+      [1, 6, 0, 1, 0, 0, 0, 0, 1, 7, 0, 1, 0, 0, 0, 0, 1, 3, 0, 1, 0, 8, 0, 0, 0, 0, 0, 0, 0, 0, 0, 0] ∧
+    c'.phase = .finished ∧ hsCount c'.env.tr.events = 1 := by
+  obtain ⟨c', fin, hrun, ho⟩ := single_request_e2e_authorizer (p := preA) (recs := recsA) (b := 64) (mc := 10)
+    (data := [111, 107]) (st := .complete 0) (t := aT) (fuel := 10)
+    recsA_wf rfl (fun q hq => by cases hq) (recsA_fits _) rfl ⟨by decide, by decide, rfl, by decide⟩ rfl
+    (by decide) (by decide +kernel) (by decide)
+  rcases ho.final with ⟨h, _⟩ | ⟨_, _, hfin, hph⟩ | ⟨_, h, _⟩
+  · exact absurd h (by decide)
+  · subst hfin
+    refine ⟨c', hrun, ?_, hph, ho.one_handler.1⟩
+    rw [ho.log]
+    show [] ++ (owedPreamble preA 10 recsA ++ streamRecords 6 1 [111, 107] ++ epilogue 1 (.complete 0)) = _
+    decide +kernel
+  · exact absurd h (by decide)
+
+def fT : Transport :=
+  { input := serAll recsF ++ (serAll fS ++ serAll fD), endMode := .pend,
+    rd := [.n 20, .pending, .n 30, .n 1, .pending, .all], wr := [.n 5, .pending, .all, .n 1], fl := [] }
+
+/-- `single_request_e2e_filter` applied: both streams read, the reply owed for the `GetValues` record
+in the Data stream written (before or after the handler's output), the task returns. -/
+example : ∃ c' O₁ O₂, runTask 20 (connS 64 10 fT [(canonicalF [33] (.complete 3), true)]) 0 none = (c', "RET") ∧
+    O₁ ++ O₂ = owedStream 1 8 10 fD ∧ owedStream 1 8 10 fD ≠ [] ∧
+    c'.env.tr.wlog = O₁ ++ [1, 6, 0, 1, 0, 1, 7, 0, 33, 0, 0, 0, 0, 0, 0, 0] ++ O₂ ++
+      [1, 6, 0, 1, 0, 0, 0, 0, 1, 7, 0, 1, 0, 0, 0, 0, 1, 3, 0, 1, 0, 8, 0, 0, 0, 0, 0, 3, 0, 0, 0, 0] ∧
+    readEvent [65, 66] ∈ c'.env.tr.events ∧ readEvent [120, 121, 122] ∈ c'.env.tr.events ∧
+    c'.phase = .finished := by
+  obtain ⟨c', fin, O1, O2, hrun, hO, ho⟩ := single_request_e2e_filter (p := preF) (recs := recsF)
+    (content := [65, 66]) (srecs := fS) (content2 := [120, 121, 122]) (drecs := fD) (b := 64) (mc := 10)
+    (data := [33]) (st := .complete 3) (t := fT) (fuel := 20)
+    recsF_wf rfl (fun q hq => by cases hq) (recsF_fits _) fS_ok (no_getValues_fits (by decide)) fD_ok fD_fits rfl
+    ⟨by decide, by decide, rfl, by decide⟩ rfl (by decide) (by decide +kernel) (by decide)
+  have hS : owedStream 1 5 10 fS = [] := by decide +kernel
+  rw [show preF.id = 1 from rfl, hS, List.nil_append] at hO
+  rcases ho.final with ⟨_, hfin, hph⟩ | ⟨h, _⟩ | ⟨h, _⟩
+  · subst hfin
+    refine ⟨c', O1, O2, hrun, hO, by decide +kernel, ?_, ho.read_content _ (by simp), ho.read_content _ (by simp), hph⟩
+    rw [ho.log]
+    show [] ++ (owedPreamble preF 10 recsF ++ O1 ++ streamRecords 6 1 [33] ++ O2 ++ epilogue 1 (.complete 3)) = _
+    rw [List.nil_append, show owedPreamble preF 10 recsF = [] from by decide +kernel, List.nil_append]
+    congr 1
+  · exact absurd h (by decide)
+  · exact absurd h (by decide)
+
+/-! ### Several requests -/
+
+/-- three requests on the connection: the Responder request above, an Authorizer request (both
+KEEP_CONN), then the Filter request above -/
 def q1 : Sent :=
-  ⟨pre, recs, [65, 66, 67],
-    [ { rtype := 5, id := 2, content := [9], pad := [] }, { rtype := 5, id := 1, content := [65, 66, 67], pad := [0] } ],
-    [0, 0], 0, [104, 105], .complete 0⟩
-def q2 : Sent := ⟨pre, recs, [], [], [], 0, [], .complete 7⟩
+  .responder pre recs [65, 66, 67]
+    [ { rtype := 5, id := 2, content := [9], pad := [] }, { rtype := 5, id := 1, content := [65, 66, 67], pad := [0] } ]
+    [0, 0] 0 [104, 105] (.complete 0)
+def q2 : Sent := .authorizer preA recsA [111, 107] (.complete 0)
+def q3 : Sent :=
+  .filter preF recsF [65, 66] [ { rtype := 5, id := 1, content := [65, 66], pad := [] } ] [] 0
+    [120, 121, 122]
+    [ { rtype := 9, id := 0, content := NV.enc (Vars.nameMaxConns, []), pad := [] },
+      { rtype := 8, id := 1, content := [120, 121, 122], pad := [] } ] [0] 0 [33] (.complete 3)
 
 def exT2 : Transport :=
   { input := q1.wire, endMode := .pend,
     rd := [.n 10, .pending, .n 7, .all, .n 3], wr := [.n 5, .pending, .all, .n 1], fl := [] }
 
-theorem q1_ok : q1.OK 64 10 :=
-  ⟨recs_wf, rfl, pre_pairs_fit 64, noise_fits 64, exS_ok, exS_fits _, by decide +kernel, by decide⟩
+theorem q1_ok : q1.OK 64 :=
+  ⟨recs_wf, pre_pairs_fit 64, noise_fits 64, exS_fits _, (fun _ hr => nomatch hr), by decide +kernel, rfl, exS_ok,
+    by decide⟩
 
-theorem q2_ok : q2.OK 64 10 :=
-  ⟨recs_wf, rfl, pre_pairs_fit 64, noise_fits 64, .term [] 0 (by decide),
-    (by intro r hr hg
-        exfalso
-        obtain ⟨h1, _⟩ := hg
-        simp only [Sent.srecs, q2, List.nil_append, List.mem_singleton] at hr
-        subst hr
-        simp [RT.getValues] at h1),
-    by decide +kernel, by decide⟩
+theorem q2_ok : q2.OK 64 :=
+  ⟨recsA_wf, (fun _ hq => nomatch hq), recsA_fits _, (fun _ hr => nomatch hr), (fun _ hr => nomatch hr),
+    by decide +kernel, rfl, by decide⟩
 
-/-- `k_requests_e2e_partial` applied: both requests are served, the log is the two answers in order,
-and the task ends parked for a third request.  (The compiled model prints `fin=STALL` and the events
-`HS(1,1,41:62)`, `R=3:414243`, …, `HS(1,1,41:62)`, `R=0:-` for this run.) -/
-example : ∃ c', closedLoop 20 [q2.wire] (connK 64 10 exT2 [q1, q2]) 0 = (c', "STALL") ∧
-    c'.env.tr.wlog = expectedAll 10 [q1, q2] ∧ hsCount c'.env.tr.events = 2 ∧
-    readEvent [65, 66, 67] ∈ c'.env.tr.events ∧ readEvent [] ∈ c'.env.tr.events ∧
-    c'.phase = .parseReq ⟨64, [], .header, 10⟩ .reading := by
-  obtain ⟨c', fin, hrun, hlog, hhs, hall, _, hfin⟩ := k_requests_e2e_partial (b := 64) (mc := 10) q1 [q2]
+theorem q3_ok : q3.OK 64 :=
+  ⟨recsF_wf, (fun _ hq => nomatch hq), recsF_fits _, no_getValues_fits (by decide), fD_fits, by decide +kernel, rfl,
+    fS_ok, fD_ok, by decide⟩
+
+/-- `k_requests_e2e` applied to requests of the three roles: all are served, the log is the three
+answers in order, and the task returns after the last (no KEEP_CONN). -/
+example : ∃ c' A, closedLoop 20 [q2.wire, q3.wire] (connK 64 10 exT2 [q1, q2, q3]) 0 = (c', "RET") ∧
+    AnswerAll 10 [q1, q2, q3] A ∧ c'.env.tr.wlog = A ∧ hsCount c'.env.tr.events = 3 ∧
+    readEvent [65, 66, 67] ∈ c'.env.tr.events ∧ readEvent [65, 66] ∈ c'.env.tr.events ∧
+    readEvent [120, 121, 122] ∈ c'.env.tr.events ∧ c'.phase = .finished := by
+  obtain ⟨c', fin, A, hrun, hA, hlog, hhs, hall, _, hfin⟩ := k_requests_e2e (b := 64) (mc := 10) q1 [q2, q3]
     (t := exT2) (fuel := 20)
     (fun q' hq' => by
-      rcases List.mem_cons.1 hq' with rfl | hq'
+      simp only [List.mem_cons, List.not_mem_nil, or_false] at hq'
+      rcases hq' with rfl | rfl | rfl
       · exact q1_ok
-      · rw [List.mem_singleton.1 hq']; exact q2_ok)
+      · exact q2_ok
+      · exact q3_ok)
     (fun q' hq' => by
-      rcases List.mem_cons.1 hq' with rfl | hq'
-      · exact exS_quiet 10
-      · rw [List.mem_singleton.1 hq']
-        simp [owedStream, Sent.srecs, q2])
-    (fun q' hq' => by
-      have : q' = q1 := by simpa [List.dropLast] using hq'
-      rw [this]; decide)
+      simp only [List.dropLast, List.mem_cons, List.not_mem_nil, or_false] at hq'
+      rcases hq' with rfl | rfl <;> decide)
     rfl ⟨by decide, by decide, rfl, by decide⟩ rfl rfl (by decide)
-  rcases hfin with ⟨_, rfl, hph, _⟩ | ⟨h, _⟩
-  · exact ⟨c', hrun, hlog.trans (List.nil_append _), hhs, (hall q1 (by simp)).2, (hall q2 (by simp)).2, hph⟩
+  rcases hfin with ⟨h, _⟩ | ⟨_, rfl, hph⟩
   · exact absurd h (by decide)
+  · exact ⟨c', A, hrun, hA, hlog.trans (List.nil_append _), hhs, (hall q1 (by simp)).2 _ (by simp [q1, Sent.reads]),
+      (hall q3 (by simp)).2 _ (by simp [q3, Sent.reads]), (hall q3 (by simp)).2 _ (by simp [q3, Sent.reads]), hph⟩
 
 end Example
 
